@@ -336,7 +336,42 @@ def run_gprog_case(ctx, rng, idx):
             "sets": {"observed": ["accept"], "gprog_kinds": sorted(kinds & {"dead", "while", "for_range", "nested", "if"})}}
 
 
+COMPTIME_PROBE = '''from guppylang import guppy
+from guppylang.std.builtins import comptime
+
+@guppy
+def main(k: int @comptime, b: bool, n: int) -> int:
+{body}
+'''
+COMPTIME_BODIES = ["    if b:\n        k = 5\n    return k\n",
+                   "    while n > 0:\n        k = k + 1\n        n -= 1\n    return k\n",
+                   "    if b:\n        pass\n    else:\n        k = n\n    return k + 1\n"]
+
+
+def run_comptime_param_case(ctx, rng, idx):
+    """A @comptime parameter is a parameter: defined on entry on every path, also when some path
+    assigns it.  (Known finding: /repo treats it as a constant until assigned, so a conditional
+    assignment makes later reads 'maybe undefined'.)"""
+    from vf import ctx as C
+
+    text = COMPTIME_PROBE.format(body=rng.choice(COMPTIME_BODIES))
+    ld = ctx.load(text)
+    try:
+        ld.main.check()
+    except BaseException as e:
+        if C.raised_in_harness(e):
+            raise
+        title = str(getattr(getattr(e, "error", None), "title", type(e).__name__))
+        if C.is_guppy_error(e) and "not defined" in title.lower():
+            return {"status": "violated", "fp": "comptime-param", "mech": "C08:false-reject:assigned-comptime-parameter-maybe-undefined",
+                    "witness": {"text": text, "error": ctx.render(e)[:800]}, "counters": {"comptime_param_probes": 1}}
+        return {"status": "discard", "fp": None, "detail": title, "counters": {"other_rejection": 1}}
+    return {"status": "held", "fp": "comptime-param", "counters": {"comptime_param_probes": 1}}
+
+
 def run_case(ctx, rng, idx, params, tier):
+    if idx % 64 == 1:
+        return run_comptime_param_case(ctx, rng, idx)
     if idx % 4 == 3:
         return run_gprog_case(ctx, rng, idx)
     g = G(rng, const_conds=(idx % 8 == 7))
